@@ -1,6 +1,7 @@
 package main
 
 import (
+	"bytes"
 	"fmt"
 	"sort"
 	"strings"
@@ -28,6 +29,27 @@ type c04env struct {
 	known     bool
 	mu        sync.Mutex
 	emptyFact *isaac.EmptyProposalINITBallotFact
+	avp       base.ACCEPTVoteproof // the ACCEPT voteproof of the previous height, carried by the ballots that bring expels
+}
+
+// carried: the voteproof a 0 round INIT ballot carries (a ballot without one is not a valid ballot; the box keeps the
+// carried voteproof per node, and that is also how it knows the node has voted)
+func (e *c04env) carried() base.ACCEPTVoteproof {
+	e.mu.Lock()
+	defer e.mu.Unlock()
+	if e.avp == nil {
+		afact := isaac.NewACCEPTBallotFact(e.point.PrevHeight(), valuehash.RandomSHA256(), e.prev, nil)
+		sfs := make([]base.BallotSignFact, len(e.members))
+		for i, m := range e.members {
+			sf := isaac.NewACCEPTBallotSignFact(afact)
+			_ = sf.NodeSign(m.Privatekey(), hNetworkID, m.Address())
+			sfs[i] = sf
+		}
+		avp := isaac.NewACCEPTVoteproof(afact.Point().Point)
+		avp.SetMajority(afact).SetSignFacts(sfs).SetThreshold(base.Threshold(67)).Finish()
+		e.avp = avp
+	}
+	return e.avp
 }
 
 func c04newEnv(n int) (*c04env, error) {
@@ -88,17 +110,25 @@ func (e *c04env) factName(h util.Hash) string {
 	return "?"
 }
 
-// expel operations for the given members, each signed by every other member
-func (e *c04env) expels(ids []int) ([]base.SuffrageExpelOperation, []util.Hash) {
+// expel operations for the given members, each signed by every other member; the bad ones are signed by a node that
+// is not in the suffrage (well-formed, and refused by the validation against the suffrage)
+func (e *c04env) expels(ids []int, bad bool) ([]base.SuffrageExpelOperation, []util.Hash) {
 	var ops []base.SuffrageExpelOperation
 	var facts []util.Hash
 	for _, x := range ids {
-		f := isaac.NewSuffrageExpelFact(e.node(x).Address(), e.point.Height()-1, e.point.Height()+5, "dead")
+		reason := "dead"
+		if bad {
+			reason = "dead, says a stranger"
+		}
+		f := isaac.NewSuffrageExpelFact(e.node(x).Address(), e.point.Height()-1, e.point.Height()+5, reason)
 		op := isaac.NewSuffrageExpelOperation(f)
 		for i := range e.members {
-			if i+1 != x {
+			if i+1 != x && !bad {
 				_ = op.NodeSign(e.members[i].Privatekey(), hNetworkID, e.members[i].Address())
 			}
+		}
+		if bad {
+			_ = op.NodeSign(e.outsider[0].Privatekey(), hNetworkID, e.outsider[0].Address())
 		}
 		ops = append(ops, op)
 		facts = append(facts, f.Hash())
@@ -112,6 +142,9 @@ type c04emitted struct {
 }
 
 func (e *c04env) describe(vp base.Voteproof) string {
+	if vp.Point().Stage() != base.StageINIT {
+		return fmt.Sprintf("carried[%v]", vp.Point())
+	}
 	var vs []string
 	for _, sf := range vp.SignFacts() {
 		bf := sf.Fact().(base.INITBallotFact)
@@ -139,6 +172,13 @@ func (e *c04env) describe(vp base.Voteproof) string {
 
 // the property's statement on one emitted voteproof, decided by the real validators
 func (e *c04env) oracle(c *Ctx, vp base.Voteproof, what string, input map[string]interface{}) {
+	if e.avp != nil && vp.Point().Equal(e.avp.Point()) && bytes.Equal(vp.HashBytes(), e.avp.HashBytes()) {
+		// the voteproof the ballots carried, handed on by the box: judged as another node judges it
+		if err := isaac.IsValidVoteproofWithSuffrage(vp, e.suf); err != nil {
+			c.Violation("C04:carried-voteproof-fails-validation", fmt.Sprintf("%s: the carried %v fails IsValidVoteproofWithSuffrage: %s", what, vp.Point(), c16short(err)), input)
+		}
+		return
+	}
 	input["voteproof"] = e.describe(vp)
 	if !vp.Point().Point.Equal(e.point) || vp.Point().Stage() != base.StageINIT {
 		c.Violation("C04:voteproof-of-unvoted-point", fmt.Sprintf("%s: emitted a voteproof of %v", what, vp.Point()), input)
@@ -166,7 +206,11 @@ func (e *c04env) oracle(c *Ctx, vp base.Voteproof, what string, input map[string
 	}
 	if err := isaac.IsValidVoteproofWithSuffrage(vp, e.suf); err != nil {
 		cls := "C04:emitted-voteproof-fails-validation"
-		if w, ok := vp.(base.HasExpels); ok && len(w.Expels()) > 0 {
+		// the recorded disagreement of the two expel rules: no more expels than the tolerable faulty nodes, counted over the
+		// full suffrage by the box and over the reduced one, at 100 %, by the validation
+		n := uint(e.suf.Len())
+		if w, ok := vp.(base.HasExpels); ok && len(w.Expels()) > 0 && uint(len(w.Expels())) <= n-base.DefaultThreshold.Threshold(n) &&
+			strings.Contains(err.Error(), "wrong result") {
 			cls = "C04:expel-recount-mismatch"
 		} else if vp.Result() == base.VoteResultDraw && vp.Majority() == nil {
 			// the recount's majority is an empty-proposal fact (SetMajority does not set it)
@@ -194,7 +238,11 @@ func (e *c04env) newBox(th base.Threshold) *isaacstates.Ballotbox {
 }
 
 func (e *c04env) ballot(id int, fact string, expelIDs []int) base.Ballot {
-	ops, efacts := e.expels(expelIDs)
+	return e.ballotX(id, fact, expelIDs, false)
+}
+
+func (e *c04env) ballotX(id int, fact string, expelIDs []int, bad bool) base.Ballot {
+	ops, efacts := e.expels(expelIDs, bad)
 	var f base.INITBallotFact = isaac.NewINITBallotFact(e.point, e.prev, e.proposal(fact), efacts)
 	if fact == "E" && len(expelIDs) == 0 {
 		// the fact a node votes when it has no proposal to offer.  Every node makes its own (the fact carries a random
@@ -211,6 +259,9 @@ func (e *c04env) ballot(id int, fact string, expelIDs []int) base.Ballot {
 	sf := isaac.NewINITBallotSignFact(f)
 	ln := e.node(id)
 	_ = sf.NodeSign(ln.Privatekey(), hNetworkID, ln.Address())
+	if len(expelIDs) > 0 {
+		return isaac.NewINITBallot(e.carried(), sf, ops)
+	}
 	return isaac.NewINITBallot(nil, sf, ops)
 }
 
@@ -273,6 +324,52 @@ func runC04(c *Ctx) error {
 		}
 		c.Case("box 3 670 1 ; "+strings.Join(toks, " ")+" c", res)
 	}
+	// more expels than tolerable faulty nodes: the box counts over the reduced suffrage at 100 %, as the validation does
+	{
+		e, err := c04newEnv(6)
+		if err != nil {
+			return err
+		}
+		box := e.newBox(base.Threshold(67))
+		toks := []string{"v:1:A:x5.6", "v:2:A:x5.6", "v:3:A:x5.6", "v:4:B:x5.6"}
+		for id, fact := range map[int]string{1: "A", 2: "A", 3: "A", 4: "B"} {
+			_, _ = box.Vote(e.ballot(id, fact, []int{5, 6}))
+		}
+		box.Count()
+		for _, vp := range c04drain(box, 3*time.Millisecond) {
+			c.Count("directed", "two-expels-of-six-split-3-1:"+e.describe(vp)+":"+vp.Result().String())
+			e.oracle(c, vp, "script "+strings.Join(toks, " ")+" c", map[string]interface{}{"suffrage": 6, "t10": 670, "script": toks})
+		}
+		c.Eval(1)
+	}
+	// a ballot with expels the suffrage does not accept, kept while the suffrage was unknown and dropped by the count:
+	// nothing of it may come back with a later ballot of the same node
+	{
+		e, err := c04newEnv(4)
+		if err != nil {
+			return err
+		}
+		e.known = false
+		box := e.newBox(base.Threshold(67))
+		toks := []string{"v:4:A:xb3", "k", "c", "v:4:A", "v:1:A", "v:2:A", "v:3:A", "c"}
+		_, _ = box.Vote(e.ballotX(4, "A", []int{3}, true))
+		e.mu.Lock()
+		e.known = true
+		e.mu.Unlock()
+		box.Count()
+		got := c04drain(box, 2*time.Millisecond)
+		for _, id := range []int{4, 1, 2, 3} {
+			_, _ = box.Vote(e.ballot(id, "A", nil))
+			got = append(got, c04drain(box, time.Millisecond)...)
+		}
+		box.Count()
+		got = append(got, c04drain(box, 3*time.Millisecond)...)
+		for _, vp := range got {
+			c.Count("directed", "dropped-ballot-with-bad-expels:"+e.describe(vp)+":"+vp.Result().String())
+			e.oracle(c, vp, "script "+strings.Join(toks, " "), map[string]interface{}{"suffrage": 4, "t10": 670, "script": toks})
+		}
+		c.Eval(1)
+	}
 	for i := 0; i < n; i++ {
 		size := 1 + c.Intn(7)
 		e, err := c04newEnv(size)
@@ -291,6 +388,9 @@ func runC04(c *Ctx) error {
 			k := 1
 			if size >= 5 && c.Bool() {
 				k = 2
+			}
+			if size >= 6 && c.Chance(1, 3) {
+				k = 3
 			}
 			for _, x := range c.Perm(size)[:k] {
 				if x+1 != 1 { // never the local node
@@ -320,19 +420,21 @@ func runC04(c *Ctx) error {
 				}
 				tok = fmt.Sprintf("v:%d:%s", id, fact)
 				var x []int
+				bad := false
 				if withExpels && c.Chance(3, 4) {
 					x = expelIDs
+					bad = !e.known && c.Chance(1, 3) // only a ballot kept for later can carry expels the suffrage refuses
 					var xs []string
 					for _, y := range x {
 						xs = append(xs, fmt.Sprint(y))
 					}
-					tok += ":x" + strings.Join(xs, ".")
+					tok += ":x" + map[bool]string{true: "b", false: ""}[bad] + strings.Join(xs, ".")
 				}
 				if len(x) == 0 && c.Chance(1, 3) { // a bare sign fact, as the SendBallots handler hands it over
 					tok = "s" + tok[1:]
 					_, _ = box.VoteSignFact(e.ballot(id, fact, nil).SignFact())
 				} else {
-					_, _ = box.Vote(e.ballot(id, fact, x))
+					_, _ = box.Vote(e.ballotX(id, fact, x, bad))
 				}
 			case k < 10:
 				tok = "c"
